@@ -34,9 +34,12 @@ impl Prop for C16 {
                     // affix document
                     let tag = *r.pick(&[&"em", &"strong", &"code", &"s", &"a"]);
                     let (open, close) = if tag == "a" { ("<a href=\"/1/\">".to_string(), "</a>".to_string()) } else { (format!("<{tag}>"), format!("</{tag}>")) };
-                    let h = format!("<p>alpha {open}tok{close} omega</p>");
+                    // the element's content: a token, or nothing at all (the affixes still appear, next to each other; added
+                    // after the seeded change C16-empty-inline-elements-dropped)
+                    let inner = if tag != "a" && r.p(35) { *r.pick(&[&"", &"<!-- c -->", &"<span></span>"]) } else { "tok" };
+                    let h = format!("<p>alpha {open}{inner}{close} omega</p>");
                     let mut c = case(h, cfg, 30 + r.u(50), "affix");
-                    c.aux = tag.to_string();
+                    c.aux = if inner == "tok" { tag.to_string() } else { format!("{tag}|empty") };
                     v.push(c);
                     continue;
                 }
@@ -80,16 +83,21 @@ impl Prop for C16 {
         }
         if c.stream == "affix" {
             let text: String = ls.iter().map(|l| line_text(l)).collect::<Vec<_>>().join(" ");
-            let (s, e) = match c.aux.as_str() {
+            let (auxtag, empty) = match c.aux.split_once('|') {
+                Some((t, _)) => (t.to_string(), true),
+                None => (c.aux.clone(), false),
+            };
+            let (s, e) = match auxtag.as_str() {
                 "em" => (&fam.0[7], &fam.0[8]),
                 "strong" => (&fam.0[9], &fam.0[10]),
                 "s" => (&fam.0[11], &fam.0[12]),
                 "code" => (&fam.0[13], &fam.0[14]),
                 _ => (&fam.0[5], &fam.0[6]),
             };
-            let strike = |x: &str| -> String { if c.aux == "s" && !c.cfg.nostrike { x.chars().flat_map(|ch| if ch.is_whitespace() { vec![ch] } else { vec![ch, '\u{336}'] }).collect() } else { x.to_string() } };
+            let strike = |x: &str| -> String { if auxtag == "s" && !c.cfg.nostrike { x.chars().flat_map(|ch| if ch.is_whitespace() { vec![ch] } else { vec![ch, '\u{336}'] }).collect() } else { x.to_string() } };
             // both affixes are emitted outside the strikeout filter: verbatim
-            let want = if c.aux == "s" { format!("{}{}{}", s, strike("tok"), e) } else { format!("{s}tok{e}") };
+            let tok = if empty { "" } else { "tok" };
+            let want = if auxtag == "s" { format!("{}{}{}", s, strike(tok), e) } else { format!("{s}{tok}{e}") };
             let squeeze = |x: &str| -> String { x.chars().filter(|ch| !ch.is_whitespace()).collect() };
             if !squeeze(&text).contains(&squeeze(&want)) {
                 out.push(viol(format!("<{}>tok</{}> with affixes {:?}/{:?}: output {:?} does not contain {:?}", c.aux, c.aux, s, e, text, want)));
